@@ -1,4 +1,5 @@
-"""C18 — fixed-size algorithms equal their standard counterparts (tie: M, N = 0..64, all variants).
+"""C18 — fixed-size algorithms equal their standard counterparts (ties: M for N = 0..64, all variants;
+T1 for the arithmetic templates at N = 0,1,2,3,5,12: harness/C18/trace.cxx -> Gen.lean, PropsGen.lean).
 
 Three programs answer the same request lines:
   model : lean/TfelVerif/C18/Driver.lean   (the object of the theorems of Props.lean)
@@ -8,11 +9,13 @@ impl vs model = the correspondence that ties the theorems to the code;
 impl vs std   = the property itself, evaluated on the implementation for every request on which the
                 standard defines the result (no harmful overlap).
 """
+import json
 import random
 
+import t1
 import vlib
 
-PROPS = ["TfelVerif.C18.Props"]
+PROPS = ["TfelVerif.C18.Props", "TfelVerif.C18.PropsGen"]
 SITE = {
     "copy": "copy.hxx:copy<N>::exe", "fill": "fill.hxx:fill<N>::exe",
     "tr1": "transform.hxx:transform<N>::exe(p,q,op)", "tr2": "transform.hxx:transform<N>::exe(p,q,r,op)",
@@ -110,10 +113,13 @@ def run(ck):
         ("c18_impl_ra2", ["C18/harness.cxx"], ("-DC18_MODE=1", "-DC18_KIND=1", "-DC18_PART=2") + asan),
         ("c18_impl_fw", ["C18/harness.cxx"], ("-DC18_MODE=1", "-DC18_KIND=2") + asan),
         ("c18_std", ["C18/harness.cxx"], ("-DC18_MODE=2",)),
+        ("c18trace", ["C18/trace.cxx", vlib.REPO + "/src/Exception/ContractViolation.cxx"], ()),
     ], opt="-O0")
+    # T1: the arithmetic templates traced with the recording scalar -> Gen.lean (PropsGen.lean: = model)
+    dag, units = t1.run_tracer(ck, bins["c18trace"])
+    ck.emit([dag], "TfelVerif.C18.Gen", "TfelVerif/C18/Gen.lean")
     driver = ck.lean_exe("c18driver", "TfelVerif/C18/Driver.lean")
     res = ck.lean(PROPS, PROPS)
-    ck.lean_violations(res)
 
     algos = list(SITE)
     reps = 2 if ck.quick else 24
@@ -181,6 +187,19 @@ def run(ck):
             ck.violation(key, "correspondence Model.lean vs %s broken at N=%d (%s): impl '%s' model '%s'%s" % (
                 SITE[algo], N, kind, a[:80], m[:80],
                 "; std agrees with the implementation" if std_ok else "; overlap not defined by std"), rep, False)
+    # a broken theorem (e.g. a traced unit of PropsGen no longer equal to the model): the concrete failing
+    # request found by the differential run on the same algorithm, if any, is its failing input
+    found_reps = [json.load(open(rp)) for (_, _, rp, fnd) in ck.violations if fnd]
+
+    def search(fl):
+        thm = (fl.get("theorem") or "").split("_")[0]
+        names = {"acc": ("acc", "accs"), "accop": ("accop",), "ip": ("ip",), "ip0": ("ip0",), "ipop": ("ipop",),
+                 "tr1": ("tr1",), "tr2": ("tr2",), "copy": ("copy",), "swap": ("swap",)}.get(thm, ())
+        for rep in found_reps:
+            if rep.get("algorithm") in names:
+                return rep
+        return found_reps[0] if (found_reps and not names) else None
+    ck.lean_violations(res, search)
     if ck.tier == "thorough" and res.ok:
         for mod, log in ck.leanchecker(PROPS):
             ck.violation("leanchecker:" + mod, "leanchecker rejects " + mod, {"log": log}, False)
@@ -198,6 +217,7 @@ def run(ck):
     ]
     sample_idx = [0, len(reqs) // 3, len(reqs) // 2, len(reqs) - 1]
     return ck.finish({
+        "units_traced": len(units), "outputs_traced": sum(len(u.outs) for u in units),
         "evaluations": len(reqs), "distinct_nontrivial": len({(r[0], r[1], r[2]) for r in reqs if r[2] > 0}),
         "rule": "requests = every (algorithm variant, iterator category, N in 0..64) x %d seeded memories; distinct = "
                 "(variant, category, N) classes with N >= 1 (each is a different template instantiation chain)" % reps,
